@@ -125,6 +125,19 @@ CHECKS = {
              "retry == retained settlement with no store call, commits == lifecycle stages) and compares class/postures/grants/tail with the model. Root digests are abstract in the model and decided as equal index content <=> equal real digest over all behaviours. Long random interleavings over 12 request ids are covered by trace validation.",
         note="Bounded models (<=3 request ids, <=6 ops exported, <=7 ops invariants-only; budgets in the cfg files); InMemoryWalStore only (filesystem store is C10/C11); crash = coordinator dropped, store kept, uncommitted frame kept or lost; BLAKE3 collision-freeness.",
         design="9.4 C17"),
+    "C09": dict(
+        technique="TLC model checking of Runtime.tla/MC_C09.tla (SuperTick transcribed operationally with checkpoint/rollback/fault records/recovery; bounded scenario generator over topologies, failure kinds, failing positions and passes) + spec->impl replay of every behaviour into the real WorldlineRuntime/SchedulerCoordinator/ProvenanceService/Engine with full Debug fingerprints around every pass",
+        text="TLC explores every behaviour of a generator over 1..3 worldlines x 1..4 writer heads (every shape up to 6 heads), up to 3 passes, a special aimed at every head before every pass (executor panic, undeclared write/read, foreign-instance op, inapplicable op => typed engine error, frontier/global tick at MAX, provenance append rejection after the engine commit, receipt-correlation conflict after the head's commit, lawful footprint conflict, dormant head) and the operator reactions none / resolve / repair+resolve / double resolve; "
+             "invariants: a failed pass changes only fault evidence, success advances each committed worldline by one per commit and the global tick by one, canonical head order, quarantined heads skipped, head-scoped faults never block other heads, lawful rejections are receipts. Every behaviour is replayed action by action into the real runtime with a failure-injecting command rule; after every action the projection is compared, and after every failed pass the Debug fingerprint of runtime + provenance + engine scratch must equal the pre-pass one outside "
+             "the masked fault-evidence fields. The property is decided on the real outcome.",
+        note="Bounded generator (<=6 heads, <=3 passes, one special per behaviour); a head commit is abstracted to a function of the admitted set and intent behaviour class (bound by C01); enforcement compiled in; hooks verif_set_global_tick / verif_set_frontier_tick / verif_set_inbox_policy and Engine::verif_fingerprint; mask = scheduler_faults, faulted_heads, runtime_fault, next_scheduler_fault_generation, runnable (re-derived and cross-checked), receipt_correlation_full_scan_count.",
+        design="9.4 C09"),
+    "C08": dict(
+        technique="TLC model checking of Runtime.tla/MC_C08.tla (all interleavings of ingest/submit/ticketed staging/SetPolicy/SuperTick, unbounded retries, state invariants + transition laws) + spec->impl replay of every transition of the state graph + model-derived metamorphic relation over all permutations and retry multiplicities + identity-law grid + restart scenarios",
+        text="TLC explores all interleavings of ingress calls (default/named/exact/missing routes, 2 kinds, one intent citing a causal parent, any number of retries), inbox policy changes (AcceptAll, KindFilter with eviction, Budget 0..2) and scheduler passes, and proves at-most-once per head, pending/committed disjointness, retry idempotence, the disposition law, id-ordered budgeted admission and that nothing admitted is lost. Every transition of the explored graph is replayed from a witness path into the real WorldlineRuntime (ingest, submit_intent, "
+             "ticketed staging, super_tick): dispositions, pending/committed membership, StepRecord counts, admitted sets and correlations must match, a Duplicate/refused call must leave the full fingerprint unchanged, and the admitted batch must be the real-id-ordered prefix. All permutations (exhaustive <=6 intents, sampled for 8) x retry multiplicities between two passes must give bit-identical committed ticks; ingress ids over a grid must be equal exactly when (kind, bytes, causal-parent set) is equal; a restart must not re-commit.",
+        note="Bounded universe (<=4 intents, 2..3 heads, <=2..3 passes, <=1 policy change); real BLAKE3 id order supplied by the harness per salt; restart = restore_witnessed_submission_persistence + restore_causal_runtime_history (WAL bytes are C10); finding F10 (restart re-commit on the raw ingest path) is listed in known_findings.json.",
+        design="9.4 C08"),
 }
 
 NOT_APPLICABLE = {
